@@ -14,6 +14,7 @@
 package evm
 
 import (
+	"errors"
 	"runtime"
 	"sync"
 	"sync/atomic"
@@ -30,6 +31,8 @@ import (
 var (
 	validateRoutineCount = runtime.NumCPU()
 	// validateRoutineCount = 1
+
+	errEmptyTx = errors.New("empty transaction")
 )
 
 const (
@@ -214,9 +217,10 @@ func tryValidate(signer etypes.Signer, tx *appTx) error {
 		return nil
 	}
 
-	// when this tx is not a evm-like tx
+	// no bytes, no transaction: report it invalid instead of executing a nil tx
 	if tx.tx == nil {
-		atomic.StoreInt32(&tx.status, appTxStatusChecked)
+		tx.err = errEmptyTx
+		atomic.StoreInt32(&tx.status, appTxStatusFailed)
 		return nil
 	}
 
